@@ -220,8 +220,8 @@ pub open spec fn assign_run(r: Reference, e: Expression, a: TState) -> AssignRun
 }
 
 // what Statement::analyze must do
-// caller obligations of Statement::analyze: the table is well formed, and no assignment in the statement hits one of the two
-// assert! sites that nothing in the typer guards (aa_obligations; for a nested statement: in whatever well-formed state it is reached)
+// caller obligations of Statement::analyze: the table is well formed, and the value assigned by any assignment in the statement has
+// fewer than 2^64 pointer levels (aa_obligations; for a nested statement: in whatever well-formed state it is reached)
 pub open spec fn stmt_pre_a(s: Statement, a: TState) -> bool
 	decreases s
 {
@@ -338,6 +338,13 @@ pub open spec fn member_type_spec(vt: Option<Poisonable<ValueType>>, steps: Seq<
 	let built = build_spec(vt, steps_below_member(steps), false);
 	if opt_wf(built) { built } else { vt }
 }
+// the type the base variable is unified with: the type built outwards from the value through ALL the steps whenever such a type
+// exists; when it is not well formed (no variable can have it: an array of array views, a pointer to an array view) the value's own
+// type, so that the conflict is reported between the variable and the value (E504)
+pub open spec fn place_type_spec(vt: Option<Poisonable<ValueType>>, steps: Seq<ReferenceStep>) -> Option<Poisonable<ValueType>> {
+	let built = build_spec(vt, steps, false);
+	if opt_wf(built) { built } else { vt }
+}
 pub struct AaRun {
 	pub steps1: Seq<ReferenceStep>, pub a1: TState,                 // after the index expressions
 	pub steps2: Seq<ReferenceStep>, pub excess: u8, pub a2: TState, // after analyze_assignment_steps (automatic dereferences made explicit)
@@ -373,7 +380,7 @@ pub open spec fn aa_run(r: Reference, vt: Option<Poisonable<ValueType>>, av: Opt
 	let a2 = if typed(bt) { as_state(bt->Some_0->Ok_0, f.0, r.address_depth, f.1) } else { f.1 };
 	let member = last_member(s2.0);
 	let symbol = match member { Some(m) => m, None => base };
-	let full = build_spec(vt, s2.0, false);
+	let full = place_type_spec(vt, s2.0);
 	let put1 = put_spec(a2.symbols, base, full);
 	let put2 = if put1.1 is Ok && member is Some { put_spec(put1.0, member->Some_0, member_type_spec(vt, s2.0)) } else { put1 };
 	AaRun { steps1: f.0, a1: f.1, steps2: s2.0, excess: s2.1, a2, member, full, put1, put2,
@@ -394,15 +401,11 @@ pub open spec fn aa_post(r: Reference, vt: Option<Poisonable<ValueType>>, av: Op
 				})
 		}
 }
-// obligations of analyze_assignment that NOTHING in the typer establishes (assert! / precondition sites; see the findings in the unit notes)
+// the only obligation of analyze_assignment that nothing in the typer establishes: a size regime (no type has 2^64 pointer levels;
+// pointer_depth() counts them in a usize).  The three assert!(..is_wellformed()) sites of the assignment path - the type put for
+// the base variable (D22), the type put for the member, the assignee type shown by E507 (D23) - are guarded or gone and PROVED unreachable.
 pub open spec fn aa_obligations(r: Reference, vt: Option<Poisonable<ValueType>>, av: Option<Expression>, a: TState) -> bool {
-	&&& typed(vt) ==> value_type::pdepth(vt->Some_0->Ok_0) <= usize::MAX
-	&&& r.base is Ok ==> {
-		let run = aa_run(r, vt, av, a);
-		&&& opt_wf(run.full)                                       // assert!(vt.is_wellformed()) in do_update_symbol
-		&&& run.address_error is Some && run.address_error->Some_0 is MismatchedAddressInAssignment
-			==> value_type::wf(run.address_error->Some_0->MismatchedAddressInAssignment_assignee_type)     // assert!(assignee_type.is_wellformed())
-	}
+	typed(vt) ==> value_type::pdepth(vt->Some_0->Ok_0) <= usize::MAX
 }
 pub open spec fn aa_pre(r: Reference, vt: Option<Poisonable<ValueType>>, av: Option<Expression>, a: TState) -> bool {
 	&&& tab_wf(a.symbols) && opt_wf(vt)
